@@ -376,9 +376,13 @@ def nat_histories(h):
             shutil.rmtree(d, ignore_errors=True)
 
 
+from contracts.common import lazy_sym, lazy_nat   # noqa: E402
+
 ITEMS = [
     Item('process_resource', sym_process_resource, [('histories', nat_histories)], D + 'to_sql.py::SQLDumper.process_resource'),
     Item('get_output_row', sym_get_output_row, [], D + 'to_sql.py::SQLDumper.get_output_row'),
     Item('normalizers', sym_normalizers, [('strize', nat_strize)], D + 'to_sql.py::SQLDumper.normalize_for_engine'),
     Item('recorded-findings', None, [('bounded', KF.nat_findings_c20)], 'dataflows/processors/dumpers/to_sql.py::SQLDumper.process_resource'),
+    # the rows handed to the SQL writer come through the dumper's caster: every declared field present (null when absent)
+    Item('schema_validator', lazy_sym('C14', 'sym_schema_validator'), [], 'dataflows/base/schema_validator.py::schema_validator'),
 ]
